@@ -36,7 +36,7 @@ def pySliceSpec {α} (l : List α) (lo hi : Option Int) : List α :=
   let b : Int := match hi with
     | some v => norm l.length v
     | none => l.length
-  (l.zipIdx.filter fun (_, j) => a ≤ (j : Int) ∧ (j : Int) < b).map Prod.fst
+  ((l.zipIdx 0).filter fun p => decide (a ≤ (p.2 : Int) ∧ (p.2 : Int) < b)).map Prod.fst
 
 /-! ## closed forms of the constructors -/
 
